@@ -47,19 +47,40 @@ SmallLe(w, c) == Small(w) /\ N(w) <= c
 (* address bytes SymB(t,1..20); the address WORD has 12 zero bytes in front. *)
 (***************************************************************************)
 SymB(t, j) == 256 + 20 * t + (j - 1)
+(***************************************************************************)
+(* Keccak-256 is an UNINTERPRETED INJECTIVE function of byte strings: the    *)
+(* h-th distinct byte string hashed in a run (KVMFrames keeps the list) has  *)
+(* the hash bytes HashB(h, 1..32) >= HBase.  The driver substitutes          *)
+(* lib/crypto Keccak256 of the listed string.  A CREATE2 address is the low  *)
+(* 20 bytes of such a hash.                                                  *)
+(***************************************************************************)
+HBase == 16777216
+HashB(h, j) == HBase + 32 * h + (j - 1)
+HashW(h) == [j \in 1..32 |-> HashB(h, j)]
+IsHashW(w) == /\ w[1] >= HBase /\ (w[1] - HBase) % 32 = 0
+              /\ \A j \in 2..32 : w[j] = w[1] + (j - 1)
+\* low 20 bytes = bytes 13..32 of one hash
+IsHash20(w) == /\ w[13] >= HBase /\ (w[13] - HBase) % 32 = 12
+               /\ \A j \in 2..20 : w[12 + j] = w[13] + (j - 1)
+HashIdx20(w) == (w[13] - HBase) \div 32
+IsH2W(w) == IsHash20(w) /\ \A i \in 1..12 : w[i] = 0
 TokW(t) == [i \in 1..32 |-> IF i <= 12 THEN 0 ELSE SymB(t, i - 12)]
 \* low 20 bytes are exactly the 20 bytes of one symbolic address (Bytes20() ignores the 12 high bytes)
-IsTok20(w) == /\ w[13] >= 256 /\ (w[13] - 256) % 20 = 0
+IsTok20(w) == /\ w[13] >= 256 /\ w[13] < HBase /\ (w[13] - 256) % 20 = 0
               /\ \A j \in 2..20 : w[12 + j] = w[13] + (j - 1)
 TokIdx(w) == (w[13] - 256) \div 20
 IsTokW(w) == IsTok20(w) /\ \A i \in 1..12 : w[i] = 0
+\* a word that is entirely one symbolic value: a created address or a hash.  Its real value is a hash, so it is
+\* (up to a collision / a 2^-96 coincidence) non-zero, >= 2^64, and different from every other such word and
+\* from every concrete word
+WholeSym(w) == IsTokW(w) \/ IsHashW(w) \/ IsH2W(w)
 
 \* "certainly >= 2^64" (Uint64WithOverflow overflows): a concrete non-zero byte among the 24 high
 \* bytes, or a symbolic address (its bytes 13..24 are hash bytes: all zero with probability 2^-96)
-Huge(w) == (\E i \in 1..24 : w[i] # 0 /\ w[i] < 256) \/ IsTokW(w)
+Huge(w) == (\E i \in 1..24 : w[i] # 0 /\ w[i] < 256) \/ WholeSym(w)
 
 \* three-valued zero test: "T" certainly non-zero, "F" zero, "U" unknown (symbolic bytes only)
-NonZero(w) == IF (\E i \in 1..32 : w[i] # 0 /\ w[i] < 256) \/ IsTokW(w) THEN "T"
+NonZero(w) == IF (\E i \in 1..32 : w[i] # 0 /\ w[i] < 256) \/ WholeSym(w) THEN "T"
               ELSE IF w = Z32 THEN "F" ELSE "U"
 
 (***************************************************************************)
@@ -82,7 +103,7 @@ SgtW(a, b) == IF Conc(a) /\ Conc(b) THEN BoolW(LtS(b, a)) ELSE OOMW
 \* EQ: identical words are equal; a whole symbolic address differs from every concrete word and from
 \* every other symbolic address (hash collisions excluded); other mixtures of symbolic bytes: unknown
 EqW(a, b) == IF a = b THEN One
-             ELSE IF (Conc(a) \/ IsTokW(a)) /\ (Conc(b) \/ IsTokW(b)) THEN Z32 ELSE OOMW
+             ELSE IF (Conc(a) \/ WholeSym(a)) /\ (Conc(b) \/ WholeSym(b)) THEN Z32 ELSE OOMW
 IsZeroW(a) == LET z == NonZero(a) IN IF z = "U" THEN OOMW ELSE BoolW(z = "F")
 
 \* bitwise, byte by byte
@@ -123,6 +144,53 @@ SignExtW(back, num) == IF ~(Conc(back) /\ Conc(num)) THEN OOMW
                             ELSE num
 
 (***************************************************************************)
+(* NATURAL NUMBERS OF ANY LENGTH as big-endian byte sequences (all bytes     *)
+(* concrete).  Used where 256 bits are not enough: the 512-bit product       *)
+(* behind MUL / MULMOD / EXP and the 257-bit sum behind ADDMOD.  Schoolbook  *)
+(* arithmetic, one byte per digit: a column of a product of an la-byte and   *)
+(* an lb-byte number sums at most min(la, lb) <= 64 terms <= 255 * 255 plus  *)
+(* a carry, so every intermediate value stays far below 2^31.                *)
+(***************************************************************************)
+RECURSIVE Norm(_)
+Norm(s) == IF s = <<>> \/ s[1] # 0 THEN s ELSE Norm(Tail(s))           \* without leading zero bytes
+NatEq(a, b) == Norm(a) = Norm(b)
+NatLt(a, b) == LET x == Norm(a)  y == Norm(b) IN
+               \/ Len(x) < Len(y)
+               \/ Len(x) = Len(y) /\ \E i \in 1..Len(x) : x[i] < y[i] /\ \A j \in 1..(i - 1) : x[j] = y[j]
+\* digit number k (0 = least significant) of s
+Dig(s, k) == IF k < Len(s) THEN s[Len(s) - k] ELSE 0
+\* the n least significant bytes of s (zero extended)
+Low(s, n) == [i \in 1..n |-> Dig(s, n - i)]
+RECURSIVE AddAcc(_, _, _, _, _)
+AddAcc(a, b, k, carry, acc) == IF k > Len(a) /\ k > Len(b) THEN acc      \* one digit more than the longer one
+                               ELSE LET t == Dig(a, k) + Dig(b, k) + carry
+                                    IN AddAcc(a, b, k + 1, t \div 256, <<t % 256>> \o acc)
+NatAdd(a, b) == AddAcc(a, b, 0, 0, <<>>)
+RECURSIVE ColSum(_, _, _, _, _)
+\* sum of a_i * b_(k-i) for i = lo..hi
+ColSum(a, b, k, i, hi) == IF i > hi THEN 0 ELSE Dig(a, i) * Dig(b, k - i) + ColSum(a, b, k, i + 1, hi)
+RECURSIVE MulAcc(_, _, _, _, _)
+MulAcc(a, b, k, carry, acc) ==
+  IF k = Len(a) + Len(b) THEN acc
+  ELSE LET lo == IF k - (Len(b) - 1) > 0 THEN k - (Len(b) - 1) ELSE 0
+           hi == IF k < Len(a) - 1 THEN k ELSE Len(a) - 1
+           t == ColSum(a, b, k, lo, hi) + carry
+       IN MulAcc(a, b, k + 1, t \div 256, <<t % 256>> \o acc)
+\* the product, Len(a) + Len(b) bytes
+NatMul(a, b) == IF a = <<>> \/ b = <<>> THEN <<>> ELSE MulAcc(a, b, 0, 0, <<>>)
+\* uint256.Mul: the low 256 bits of the product (leading zero bytes do not matter: multiply the normal forms)
+MulLow(a, b) == Low(NatMul(Norm(a), Norm(b)), 32)
+\* uint256.Exp by square and multiply over the bits of the exponent, most significant first
+RECURSIVE PowBits(_, _, _, _, _)
+PowBits(base, e, idx, bit, acc) ==
+  IF idx > Len(e) THEN acc
+  ELSE LET sq == MulLow(acc, acc)
+           nx == IF Bit(e[idx], bit) = 1 THEN MulLow(sq, base) ELSE sq
+       IN IF bit = 0 THEN PowBits(base, e, idx + 1, 7, nx) ELSE PowBits(base, e, idx, bit - 1, nx)
+PowLow(base, e) == PowBits(base, Norm(e), 1, 7, One)
+
+
+(***************************************************************************)
 (* Small-operand arithmetic.  Sm(w,c): natural <= c.  Signed small numbers   *)
 (* are two's complement words whose negation is small.                       *)
 (***************************************************************************)
@@ -131,7 +199,8 @@ B30 == 1073741823
 MulW(a, b) == IF a = Z32 \/ b = Z32 THEN (IF Conc(a) /\ Conc(b) THEN Z32 ELSE OOMW)
               ELSE IF a = One THEN (IF Conc(b) THEN b ELSE OOMW)
               ELSE IF b = One THEN (IF Conc(a) THEN a ELSE OOMW)
-              ELSE IF SmallLe(a, B15) /\ SmallLe(b, B15) THEN W(N(a) * N(b)) ELSE OOMW
+              ELSE IF SmallLe(a, B15) /\ SmallLe(b, B15) THEN W(N(a) * N(b))
+              ELSE IF Conc(a) /\ Conc(b) THEN MulLow(a, b) ELSE OOMW          \* exact on all 2^256 values (NatMul below)
 DivW(a, b) == IF Conc(a) /\ b = Z32 THEN Z32
               ELSE IF Small(a) /\ Small(b) THEN W(N(a) \div N(b)) ELSE OOMW
 ModW(a, b) == IF Conc(a) /\ b = Z32 THEN Z32
@@ -157,4 +226,14 @@ ExpW(b, e) == IF e = Z32 THEN (IF Conc(b) THEN One ELSE OOMW)
               ELSE IF SmallLe(b, B15) /\ SmallLe(e, 15)
                    THEN LET p == PowB(N(b), N(e)) IN IF p < 0 THEN OOMW ELSE W(p)
                    ELSE OOMW
+
+\* self-test of the multiplication (evaluated by TLC when the module is loaded)
+Rep8(n, v) == [i \in 1..n |-> v]
+ASSUME /\ NatMul(Rep8(16, 255), Rep8(16, 255)) = Rep8(15, 255) \o <<254>> \o Rep8(15, 0) \o <<1>>   \* (2^128-1)^2
+       /\ NatMul(Rep8(32, 255), Rep8(32, 255)) = Rep8(31, 255) \o <<254>> \o Rep8(31, 0) \o <<1>>   \* carries through all 64 bytes
+       /\ NatMul(<<1, 0>>, <<1, 0>>) = <<0, 1, 0, 0>> /\ NatMul(<<255>>, <<255>>) = <<254, 1>>
+       /\ NatMul(<<18, 52, 86>>, <<171, 205>>) = NatMul(<<171, 205>>, <<18, 52, 86>>)
+       /\ NatMul(<<18, 52, 86>>, <<171, 205>>) = <<12, 55, 137, 90, 222>>                          \* 0x123456 * 0xabcd = 0x0c37895ade
+       /\ NatAdd(Rep8(32, 255), <<1>>) = <<1>> \o Rep8(32, 0) /\ NatLt(<<0, 5>>, <<6>>) /\ ~NatLt(<<6>>, <<0, 6>>)
+       /\ PowLow(W(3), W(5)) = W(243) /\ PowLow(W(2), W(256)) = Z32 /\ PowLow(W(2), W(255)) = [i \in 1..32 |-> IF i = 1 THEN 128 ELSE 0]
 =============================================================================
